@@ -6,24 +6,24 @@ props = [json.loads(l) for l in open(os.path.join(HERE, "properties.jsonl"))]
 TECH = "contract-based deductive verification: VCs generated from the real AST by PyVC, discharged by z3 5.1 / cvc5"
 CLAIMS = {
     "C02": dict(
-        text="Proof (unbounded, SMT-discharged) of calculate_worker_assignments against a closed-form postcondition: one entry per host, exactly `cores` worker slots per host, worker w of host h holds exactly the contiguous ids base(h)+S(w)..; ranges tile [0,client_count); per-host loads differ by <=1 (lemma Fbal); the internal assert never fires. Loop invariants for all four loops, frame obligations for every heap write.",
-        note="Assumes: float rounding model for ceil(c/h) (c<=2^40, hosts<=2^20); cores>=1. Not yet under contract in this revision: Allocator.allocations / tasks_per_joinpoint / Parallel.clients (listed under not_decided in evidence). Trusted: PyVC executor, z3/cvc5.",
-        design="§4 C02",
+        text="Proofs (unbounded, SMT-discharged): calculate_worker_assignments against a closed-form postcondition (one entry per host, `cores` worker slots, worker w of host h holds exactly the contiguous ids base(h)+S(w).., ranges tile [0,client_count), loads differ by <=1, the internal assert never fires); Allocator.clients (width = max(1, max element clients)); Allocator.allocations as a shape proof over all seven loops (rows are distinct fresh lists, round-robin row lengths L0 + c//n + [r < c%n], None padding makes the matrix rectangular, every row ends with the same join point whose id is the element count so far, a join point's client lists start empty with every element) plus ghost assertions at every allocation (leaf task, client index within the task = loop index - start in 0..clients-1, element-wide index, total_clients = the ELEMENT's clients); TaskAllocation.__init__; Driver.start_benchmark (every worker is started with exactly the matrix rows of the clients assigned to it, ids are valid rows). BOUNDED stand-in: the finished matrix / join_points / tasks_per_joinpoint of the real Allocator for 1350 schedules against the property wording.",
+        note="Assumes: float rounding model for ceil(c/h) (c<=2^40, hosts<=2^20); x.clients is a pure function of a schedule element while the matrix is built; Task/Parallel.__iter__ are `return iter(<list>)` (checked syntactically each run); Allocator loops may modify any object created by the call (modifies_fresh). 'Every (task, client index) exactly once' over the finished matrix and join_points/tasks_per_joinpoint are bounded only. Trusted: PyVC, z3/cvc5.",
+        design="§4 C02; §8",
     ),
     "C03": dict(
-        text="Proof that bounds() returns exactly (L*R(start), R(end+1)-R(start), L*docs) with R(i)=round(fl(fl(total/num)*i)) under the float rounding model, plus lemmas R(0)=0, R(num)=total, R monotone, adjacent ranges abut: hence for ANY split of clients into consecutive ranges the slices are disjoint, contiguous and cover every document exactly once (total<=10^12, clients<=2^20).",
-        note="Assumes the standard float rounding model (|fl(x)-x|<=2^-53|x|, monotone, exact on small integers), round-half-even. Readers, offset tables, bulk cutting, conflicting ids are not yet under contract (not_decided).",
-        design="§4 C03",
+        text='Proofs: bounds() returns exactly (L*R(start), R(end+1)-R(start), L*docs) with R(i)=round(fl(fl(total/num)*i)) under the float rounding model, plus lemmas R(0)=0, R(num)=total, R monotone, adjacent ranges abut (disjoint, contiguous, complete slices for ANY split of clients; total<=10^12, clients<=2^20); GenerateActionMetaData.__next__ (each fresh id handed out exactly once in order; a simulated conflict targets an id that HAS ALREADY been used, never index -1 / an unused id; StopIteration exactly when ids are exhausted); the line-offset table contracts of C14 (one entry per 50000 lines = tell() after that line, moved into place only when complete; lookup + skip end after line n). BOUNDED stand-in: offset table == skipping lines one by one on real files incl. multi-byte and CRLF content.',
+        note="Float rounding model (|fl(x)-x|<=2^-53|x|, monotone, exact on small integers), round-half-even; ids <= 2^40. Text-mode tell() as byte offset is bounded only. Readers' bulk cutting (Slice/IndexDataReader) and the corpus/client partition in PartitionBulkIndexParamSource are not under contract.",
+        design="§4 C03; §8",
     ),
     "C08": dict(
-        text="Proof that percentile_value equals the linear-interpolation definition for every sorted non-empty list and 0<=p<=100, stays within [min,max], p100=max, p0=min, p50=median (odd and even n), never indexes out of range; lemma: non-decreasing in p.",
-        note="Exact-real arithmetic for floats. Store filters/stats/error-rate, result assembly and persistence round trip not yet under contract (not_decided).",
-        design="§4 C08",
+        text='Proofs: percentile_value equals the linear-interpolation definition for every sorted non-empty list and 0<=p<=100, within [min,max], p100=max, p0=min, p50=median, never out of range, lemma non-decreasing in p; GlobalStats.metrics returns the FIRST record filed under the task name (records with a task name are never found through their operation name; loop invariant). Call-site obligations (syntactic): every store query behind the per-task result metrics passes sample_type=SampleType.Normal. BOUNDED stand-in: the real GlobalStatsCalculator on 40 generated in-memory stores (normal samples only, p50=median within [min,max], percentile set by NORMAL sample count, error rate), metrics lookup table, race.json round trip incl. zero-valued metrics.',
+        note='Exact-real arithmetic for floats. Store filters / get_stats / result assembly / persistence are bounded or call-site only, not proved.',
+        design="§4 C08; §8",
     ),
     "C20": dict(
-        text="Proof of ComparisonReporter._diff (sign, threshold, direction colour, plain output, zero-printing differences neutral, self-comparison neutral) for all reals and every formatter; _line row shape; convert formatters linear; swap lemmas; 33 call-site obligations: treat_increase_as_improvement is True iff the metric is a throughput.",
-        note="Exact-real arithmetic; number formatting and colour functions are uninterpreted. tabulate/csv rendering and relative difference for zero/opposite-sign baselines not decided.",
-        design="§4 C20",
+        text='Proof of ComparisonReporter._diff (sign, threshold, direction colour, plain output, zero-printing differences neutral, self-comparison neutral) for all reals and every formatter; _line row shape; convert formatters linear; swap lemmas; GlobalStats.metrics (the per-task record both races are read from: first record filed under the task name); 33 call-site obligations: treat_increase_as_improvement is True iff the metric is a throughput.',
+        note='Exact-real arithmetic; number formatting and colour functions are uninterpreted. tabulate/csv rendering and relative difference for zero/opposite-sign baselines not decided.',
+        design="§4 C20; §8",
     ),
 }
 CLAIMS["C15"] = dict(
@@ -62,8 +62,8 @@ CLAIMS["C18"] = dict(
     design="§4 C18",
 )
 CLAIMS["C13"] = dict(
-    text="Proofs over maps as (domain, value) arrays: ElasticsearchInstaller.variables and DockerProvisioner.__init__ give Rally's own node variables whatever the composed car defines and pass every other car variable through unchanged (forall keys); CarLoader.load_car lets command-line car parameters override the car's [variables] section and takes everything else from it; provisioner.cleanup removes nothing under preserve-install and otherwise only the installation directory and the data paths, each at most once (ghost trace of rmtree events, loop invariant).",
-    note="configparser section copying, os.path, str() and str.join are assumed/uninterpreted; team.load_car's car-order loop and _apply_config template mirroring are not yet under contract (not_decided).",
+    text="Proofs over maps as (domain, value) arrays: ElasticsearchInstaller.variables and DockerProvisioner.__init__ give Rally's own node variables whatever the composed car defines and pass every other car variable through unchanged (forall keys); CarLoader.load_car lets command-line car parameters override the car's [variables] section and takes everything else from it; provisioner.cleanup removes nothing under preserve-install and otherwise only the installation directory and the data paths, each at most once (ghost trace of rmtree events, loop invariant). BareProvisioner._provisioner_variables: what templates and hooks see are Rally's node variables unless a PLUGIN defines the key (the car's variables never re-override them); cleanup examines EVERY data path exactly once and then the installation directory (ghost counter) and removes whatever exists.",
+    note="configparser section copying, os.path, str() and str.join are assumed/uninterpreted; team.load_car's car-order loop and _apply_config template mirroring are not under contract (not_decided).",
     design="§4 C13",
 )
 CLAIMS["C19"] = dict(
@@ -77,27 +77,27 @@ CLAIMS["C12"] = dict(
     design="§4 C12",
 )
 CLAIMS["C09"] = dict(
-    text="Proofs, over ghost send traces, of the per-handler guarantees of the failure chain: no_retry.guard turns an exception of ANY class raised by a handler into exactly one BenchmarkFailure to the original sender (and passes results through otherwise); DriverActor forwards BenchmarkFailure / BenchmarkCancelled / PoisonMessage exactly once to race control and reports the premature exit of ANY worker (index 0 included) unless exiting; BenchmarkActor marks the coordinator failed / cancelled and forwards the same message; BenchmarkCoordinator.on_benchmark_complete computes, stores and prints final results iff the race was neither cancelled nor failed.",
-    note="NOT decided (outside this family): 'in bounded time', hang freedom and the interleaving quantifier; Worker/TaskExecutionActor/TrackPreparationActor forwarding and racecontrol.race() are covered under C01/C07 or not yet. Assumed: thespian delivery.",
+    text="Proofs, over ghost send traces, of the per-handler guarantees of the failure chain: no_retry.guard turns an exception of ANY class raised by a handler into exactly one BenchmarkFailure to the original sender (and passes results through otherwise); DriverActor forwards BenchmarkFailure / BenchmarkCancelled / PoisonMessage exactly once to race control and reports the premature exit of ANY worker (index 0 included) unless exiting; BenchmarkActor marks the coordinator failed / cancelled and forwards the same message; BenchmarkCoordinator.on_benchmark_complete computes, stores and prints final results iff the race was neither cancelled nor failed. execute_single: a normal return under on-error=abort means the runner returned and did not report success=false; the meta-data carries the runner's own verdict (true only by default); transport/API errors are failures; a refused connection is fatal whatever on-error says; a runner KeyError becomes SystemSetupError. Call-site obligation (syntactic): AsyncIoAdapter.run awaits asyncio.gather without return_exceptions and without an except clause, so client exceptions reach the worker.",
+    note="NOT decided (outside this family): 'in bounded time', hang freedom and the interleaving quantifier; Worker wake-up/race() chain only as far as C01/C07 go. Assumed: thespian delivery; runner outcomes as listed in evidence; untyped + str concatenation treats the untyped operand as a string.",
     design="§4 C09",
 )
 CLAIMS["C01"] = dict(
-    text="Proofs of the handler-local guarantees the barrier argument rests on, over ghost message traces: Driver.joinpoint_reached (nobody is driven on, nothing reported and the step does not advance until the LAST worker of the step reports; then the step advances by one, bookkeeping is reset and exactly one of: one on_benchmark_complete and no Drive, or on_task_finished followed by exactly one Drive per worker), move_to_next_task, may_complete_current_task (at most one broadcast per step; completed-by any / named task conditions over worker ids), Worker.receiveMsg_Drive / CompleteCurrentTask (ignored at a join point), Worker.drive PROGRESS obligation (every return has either sent exactly one JoinPointReached at a join point with flags reset, or submitted an executor AND armed a wake-up; join-point columns are never skipped; recursion by its own contract).",
+    text="Proofs of the handler-local guarantees the barrier argument rests on, over ghost message traces: Driver.joinpoint_reached (nobody is driven on, nothing reported and the step does not advance until the LAST worker of the step reports; then the step advances by one, bookkeeping is reset and exactly one of: one on_benchmark_complete and no Drive, or on_task_finished followed by exactly one Drive per worker), move_to_next_task, may_complete_current_task (at most one broadcast per step; completed-by any / named task conditions over worker ids), Worker.receiveMsg_Drive / CompleteCurrentTask (ignored at a join point), Worker.drive PROGRESS obligation (every return has either sent exactly one JoinPointReached at a join point with flags reset, or submitted an executor AND armed a wake-up; join-point columns are never skipped; recursion by its own contract). AsyncExecutor.__call__ (shared with C04): a client of the task that completes its parent never consults the shared completion flag (it runs until its own runner is done) and sets the flag when it ends.",
     note="NOT decided (outside this family): the quantifier over delivery orders/delays/clock offsets and liveness; the composition lemma (no worker in step k+1 while another is in step k) is assumed from the handler contracts. One genuine defect (skip branch armed nothing: race hangs) was found by this check and repaired by a fix: commit. Allocator join points: see C02.",
     design="§4 C01",
 )
 CLAIMS["C07"] = dict(
-    text="Proofs of the function-level exactly-once links: Worker.send_samples (queue drained once, everything drained shipped in ONE UpdateSamples), Worker.drive (the sampler is only replaced or dropped after it was drained and the finished executor joined), Driver.update_samples (shipment appended as a whole, order kept), Driver.post_process_samples (the processor gets exactly the gathered list, new samples go to a fresh empty list), move_to_next_task (metrics externalised with clear exactly once per step and handed to race control).",
-    note="NOT decided: interleavings of ticks/shipments/hand-overs; SamplePostprocessor record counts and the metrics store internals are not yet under contract. One genuine defect (sampler replaced un-drained at a task-to-task transition) was found and repaired by a fix: commit.",
+    text="Proofs of the function-level exactly-once links: Worker.send_samples (queue drained once, everything drained shipped in ONE UpdateSamples), Worker.drive (the sampler is only replaced or dropped after it was drained and the finished executor joined), Driver.update_samples (shipment appended as a whole, order kept), Driver.post_process_samples (the processor gets exactly the gathered list, new samples go to a fresh empty list), move_to_next_task (metrics externalised with clear exactly once per step and handed to race control). SamplePostprocessor.__call__: exactly one latency and one processing-time record per down-sampled sample (ghost counters, (i+f-1)//f lemma), every record of a sample carries the meta-data merged FOR THAT sample (own request meta-data and client id) and its own values, the batch is flushed without refresh; Driver.joinpoint_reached post-processes the finished step's samples FIRST at every last join point, also the final one.",
+    note="NOT decided: interleavings of ticks/shipments/hand-overs; MetricsStore._put_metric / to_externalizable / bulk_add internals. One genuine defect (sampler replaced un-drained at a task-to-task transition) was found and repaired by a fix: commit.",
     design="§4 C07",
 )
 CLAIMS["C04"] = dict(
-    text="Proof, for every schedule and every clock behaviour allowed by a monotone ghost clock, of ghost assertions placed at the call sites inside AsyncExecutor.__call__: a throttled request is never issued before total_start + its scheduled time; at every Sampler.add the recorded service_time == request_end - request_start >= 0, processing_time == processing_end - processing_start >= service_time, latency == request_end - scheduled time (>= service_time) if throttled and == service_time otherwise, and the sample carries the executor's task, client id, the yielded sample type and the issue time; exactly one sample per consumed schedule entry (loop invariant nev == iterations); the completion flag is set at the end iff the task completes its parent.",
-    note="Assumed: perf_counter monotone, asyncio.sleep(d) returns no earlier than d later, the runner issues >= 1 wire request inside the request context (A-REQ). execute_single's error mapping is not yet under contract. Exact reals.",
+    text="Proof, for every schedule and every clock behaviour allowed by a monotone ghost clock, of ghost assertions placed at the call sites inside AsyncExecutor.__call__: a throttled request is never issued before total_start + its scheduled time; at every Sampler.add the recorded service_time == request_end - request_start >= 0, processing_time == processing_end - processing_start >= service_time, latency == request_end - scheduled time (>= service_time) if throttled and == service_time otherwise, and the sample carries the executor's task, client id, the yielded sample type and the issue time; exactly one sample per consumed schedule entry (loop invariant nev == iterations); the completion flag is set at the end iff the task completes its parent. Sampler.add: the queued Sample carries latency / service_time / processing_time and all other arguments in the fields of their own names; the request-context hooks (shared with C18): service time spans the FIRST wire request's start to the last response.",
+    note="Assumed: perf_counter monotone, asyncio.sleep(d) returns no earlier than d later, the runner issues >= 1 wire request inside the request context (A-REQ). Exact reals.",
     design="§4 C04",
 )
 CLAIMS["C10"] = dict(
-    text="Proof that TrackSpecificationReader.parse_task builds a task whose iterations / time periods / ramp-up / clients / name are the spec entry if present, else the enclosing parallel element's default, else the documented default, with the completed-by flags as documented, and that it raises a track syntax error IFF one of the documented rules is violated (no mixing of iterations and time periods, ramp-up only with a sufficient warm-up time period, operation present). Challenge/parallel assembly, duplicate-name rules, default-challenge rules and template include expansion are covered by a BOUNDED stand-in only (generated tracks and template trees through the real loader), labelled bounded.",
+    text="Proof that TrackSpecificationReader.parse_task builds a task whose iterations / time periods / ramp-up / clients / name are the spec entry if present, else the enclosing parallel element's default, else the documented default, with the completed-by flags as documented, and that it raises a track syntax error IFF one of the documented rules is violated (no mixing of iterations and time periods, ramp-up only with a sufficient warm-up time period, operation present). Challenge/parallel assembly, duplicate-name rules, default-challenge rules and template include expansion are covered by a BOUNDED stand-in only (generated tracks and template trees through the real loader), labelled bounded. The bounded part also loads a track directory through TrackFileReader.read with 7 track-parameter sets (parameters used only in an index body file count as used; unused / reserved ones are rejected).",
     note="Jinja2 rendering, jsonschema validation and json.loads are third-party engines (assumed). The bounded part (17 single-rule violations, optional-property drops, include depth <= 2) is not counted as proved.",
     design="§4 C10",
 )
